@@ -69,6 +69,10 @@ SEEDS = [
     ('proof/theory', G1, C1, 2),
     ('gamma', b'', b'', 0),
     ('claim', G1, b'', 1),
+    # the same claim twice (claims are a stack of obligations, one proof each), and a single claim (what follows the
+    # proof of the last claim is still executed)
+    ('proof/repeated-claim', G1, bytes([137, 0, 137, 0, 5, 30, 137, 0, 137, 0, 5, 30]), 2),
+    ('proof/one-claim', G1, bytes([137, 0, 137, 0, 5, 30]), 2),
 ]
 
 
@@ -371,12 +375,15 @@ def main(argv=None) -> int:
     # (1) BFS
     depth_main = 4 if thorough else 3
     caps = (4, 3, 600)
-    for si in range(len(SEEDS)):
+    for si in range(4):
         depth = depth_main if si < 2 else depth_main - 1 if not thorough else depth_main
         bfs(chk, si, depth, caps, agg)
     # deeper search with the rule-centred alphabet (proof phase, empty and seeded theory)
     for si in (0, 1):
         bfs(chk, si, 6 if thorough else 5, caps, agg, 'rule')
+    for si in (4, 5):
+        bfs(chk, si, 6 if thorough else 5, caps, agg, 'rule')
+        bfs(chk, si, 3, caps, agg)
     # (2) raw strings
     maxlen = 4 if thorough else 3
     raws = list(raw_strings(maxlen))
